@@ -179,7 +179,7 @@ Proof.
   - destruct (app (en s) && negb (running (en s)) && fdone (ch s) (lastf (ch s))); assumption.
   - destruct (negb (app (en s)) && negb (lclosed (en s))); assumption.
   - destruct (lclosed (en s)); [assumption|]. destruct (loopq (en s)); [assumption|].
-    destruct (app (en s) && ctx (en s) && running (en s)); [|assumption].
+    destruct (app (en s) && (running (en s) || negb (fdone (ch s) (lastf (ch s))))); [|assumption].
     pose proof (submit_CI (running (en s)) (PWrite t) (ch s) (out s) I) as H.
     destruct (submit _ _ _ _). exact H.
   - destruct (app (en s) && running (en s) && _); assumption.
